@@ -33,6 +33,7 @@ def opsFsPath (op : String) (a : List Bytes) : Option String :=
     match stripLeadingSlashes n p with
     | none => some "panic"
     | some q => some s!"ok {hex q}"
+  | "fstarget", [t] => some (hex (requestPath t))
   | "fshasdotdot", [p] => some (if hasDotDot p then "1" else "0")
   | "fsp2f", [osfs, root, p] => some (hex (pathToFilePath (flag osfs) root p))
   | "fstocompressed", [root, croot, fp] =>
